@@ -423,7 +423,7 @@ def check_pack(ctx, res: Result, prop_id: str):
             if imp[0] == "symbol" and imp[1] in ctx.prog.modules and imp[1].split(".")[-1].startswith("_") and ctx.prog.modules[imp[1]] not in mods:
                 mods.append(ctx.prog.modules[imp[1]])
     fis = [fi for fi in ctx.prog.functions.values() if fi.module in mods]
-    lints = (("G-STALE", check_stale_in_loop), ("G-REUSE", check_iterator_reuse), ("N-FANCYAUG", check_fancy_augassign), ("G-GROUPBY", check_groupby_sorted), ("E-SHARED", check_shared_literals), ("G-LIVEITER", check_mutation_while_iterating), ("E-DEFAULTARG", check_mutable_defaults), ("G-KEYPROJ", check_key_projection), ("K-OWNER", check_id_owner), ("G-COUNTERADD", check_counter_arith), ("G-ZEROBUCKET", check_zero_buckets), ("G-LENVALID", check_len_validated_cache), ("G-SHAPEGUESS", check_layout_guess), ("K-LABELTYPE", check_label_type_dispatch), ("G-ZIPALIGN", check_zip_alignment), ("G-TRUTHY0", check_truthy_index), ("G-PYTRAP", check_python_traps), ("G-LOSSYKEY", check_lossy_keys), ("G-TRISTATE", check_tristate_flag), ("N-TRACEMUL", check_trace_of_elementwise))
+    lints = (("G-STALE", check_stale_in_loop), ("G-REUSE", check_iterator_reuse), ("N-FANCYAUG", check_fancy_augassign), ("G-GROUPBY", check_groupby_sorted), ("E-SHARED", check_shared_literals), ("G-LIVEITER", check_mutation_while_iterating), ("E-DEFAULTARG", check_mutable_defaults), ("G-KEYPROJ", check_key_projection), ("K-OWNER", check_id_owner), ("G-COUNTERADD", check_counter_arith), ("G-ZEROBUCKET", check_zero_buckets), ("G-LENVALID", check_len_validated_cache), ("G-SHAPEGUESS", check_layout_guess), ("K-LABELTYPE", check_label_type_dispatch), ("G-ZIPALIGN", check_zip_alignment), ("G-TRUTHY0", check_truthy_index), ("G-PYTRAP", check_python_traps), ("G-LOSSYKEY", check_lossy_keys), ("G-TRISTATE", check_tristate_flag), ("N-TRACEMUL", check_trace_of_elementwise), ("G-REUSEDREC", check_reused_record))
     seen_keys = {(o.rule, o.func, o.stmt) for o in res.obs}
     for rule, fn in lints:
         n_f = n_v = 0
@@ -1028,6 +1028,17 @@ def check_python_traps(ctx, res: Result, dotted, rule="G-PYTRAP"):
                     except Exception:
                         k_ = None
                     other_none = any(isinstance(o_, ast.Constant) and (o_.value is None or isinstance(o_.value, bool)) for o_ in sides if o_ is not side)
+                    # the other operand is a value too: a module-level sentinel object (`bound is _NO_HYPEREDGES`) is compared by
+                    # identity on purpose
+                    for o_ in sides:
+                        if o_ is side or other_none:
+                            continue
+                        try:
+                            ko_ = _sn(ctx.interp.kind_at(fi, o_))
+                        except Exception:
+                            ko_ = None
+                        if not (isinstance(ko_, _At) and ko_.name in ("NODE", "TIME", "LAYER", "WEIGHT", "EID", "SIZE", "ORDER")) and not isinstance(o_, ast.Constant):
+                            other_none = True
                     if isinstance(k_, _At) and k_.name in ("NODE", "TIME", "LAYER", "WEIGHT", "EID", "SIZE", "ORDER") and not other_none:
                         n += 1
                         res.violation(rule, f, norm(c)[:100], "is-value", f"`{norm(c)[:60]}` compares two {k_.name.lower()} values by IDENTITY: equal values are the same object only by accident of the interpreter (small ints, interned literals) - for labels / times that are computed or read from a file the test fails although the values are equal", loc(fi, c))
@@ -1232,3 +1243,51 @@ def check_trace_of_elementwise(ctx, res: Result, dotted, rule="N-TRACEMUL"):
                 res.violation(rule, f, norm(c)[:100], "elementwise", f"`{norm(c)[:60]}` takes the trace of an ELEMENTWISE product: only the diagonal entries of the two factors meet, every cross term (a_ij b_ji with i != j) is dropped - with a non-diagonal factor the value is not the trace of the matrix product", loc(fi, c))
     if n == 0:
         res.ok(rule, f, "no trace of an elementwise product", "scan", loc(fi, fi.node))
+
+
+def check_reused_record(ctx, res: Result, dotted, rule="G-REUSEDREC"):
+    """One mutable record (a dict created once) is filled item after item with `.update(...)` / element stores and handed to a
+    consumer each time, but it is never emptied in between: a field that the current item does not set still holds the value of
+    an EARLIER item.  (A record that is rebuilt per item - `record = {...}` inside the loop - or cleared first is fine.)"""
+    v = ctx.view(dotted)
+    fi = v.fi
+    f = fi.short
+    res.rules.setdefault(rule, "a record object reused across items is emptied (or rebuilt) before it is filled for the next item - an accumulate-only `.update` leaks fields of earlier items")
+    n = 0
+    # records: locals of fi bound once to a dict display / dict() that has at least one dict-valued field or is itself updated
+    recs = {}
+    for a in walk_no_nested(fi.node):
+        if isinstance(a, ast.Assign) and len(a.targets) == 1 and isinstance(a.targets[0], ast.Name) and (isinstance(a.value, ast.Dict) or (isinstance(a.value, ast.Call) and isinstance(a.value.func, ast.Name) and a.value.func.id == "dict")):
+            recs.setdefault(a.targets[0].id, []).append(a)
+    recs = {k: d[0] for k, d in recs.items() if len(d) == 1 and v.enclosing(d[0], (ast.For, ast.While)) is None}
+    if not recs:
+        res.ok(rule, f, "no reused record", "scan", loc(fi, fi.node))
+        return
+    # regions executed once per item: bodies of nested functions that are called inside a loop of fi, and loop bodies of fi
+    regions = []
+    for g in [x for x in ast.walk(fi.node) if isinstance(x, (ast.FunctionDef, ast.Lambda)) and x is not fi.node]:
+        if isinstance(g, ast.FunctionDef):
+            called_in_loop = any(isinstance(c, ast.Call) and isinstance(c.func, ast.Name) and c.func.id == g.name and v.enclosing(c, (ast.For, ast.While)) is not None for c in walk_no_nested(fi.node))
+            if called_in_loop:
+                regions.append((g, g.body))
+    for lp in [x for x in walk_no_nested(fi.node) if isinstance(x, (ast.For, ast.While))]:
+        regions.append((lp, lp.body))
+    for name, d in recs.items():
+        for holder, body in regions:
+            nodes = [y for st in body for y in ast.walk(st)]
+
+            def on_rec(e):
+                """e is `name` or `name[<const>]`"""
+                if isinstance(e, ast.Name):
+                    return e.id == name
+                return isinstance(e, ast.Subscript) and isinstance(e.value, ast.Name) and e.value.id == name
+
+            grows = [c for c in nodes if isinstance(c, ast.Call) and isinstance(c.func, ast.Attribute) and c.func.attr == "update" and on_rec(c.func.value)]
+            resets = [c for c in nodes if (isinstance(c, ast.Call) and isinstance(c.func, ast.Attribute) and c.func.attr == "clear" and on_rec(c.func.value)) or (isinstance(c, ast.Assign) and any(on_rec(t) and isinstance(c.value, (ast.Dict, ast.Call, ast.DictComp)) for t in c.targets) and any(isinstance(t, ast.Subscript) and isinstance(c.value, (ast.Dict, ast.DictComp)) or isinstance(t, ast.Name) for t in c.targets))]
+            handed = [c for c in nodes if isinstance(c, ast.Call) and any(isinstance(a_, ast.Name) and a_.id == name for a_ in list(c.args) + [k.value for k in c.keywords])]
+            if grows and handed and not resets:
+                n += 1
+                res.violation(rule, f, norm(grows[0])[:100], name, f"`{name}` is created once and `{norm(grows[0])[:50]}` only ADDS to it for every item before it is handed to `{norm(handed[0].func)[:30]}`: a key that an earlier item set and the current one does not is still there - the record written for this item carries fields of previous items", loc(fi, grows[0]))
+                break
+    if n == 0:
+        res.ok(rule, f, "no record reused without being emptied", "scan", loc(fi, fi.node))
